@@ -350,3 +350,53 @@ func ruleNoGlobalResult(label string, entries func(c *Ctx) []effectEntry, floor 
 		c.R.Floor("B2g-no-shared-result", len(ents), floor)
 	}
 }
+
+// ruleNoGlobalBehindParams: B2p.  What a decoder leaves in the memory of its receiver / destination must not be
+// package-level or pooled memory: the next call would overwrite what this call delivered.
+func ruleNoGlobalBehindParams(label string, entries func(c *Ctx) []effectEntry, floor int) ruleFunc {
+	return func(c *Ctx) {
+		c.R.Rule("B2p (" + label + "): after the call, the memory reachable from the receiver and the pointer arguments contains no package-level object and nothing obtained from a sync.Pool: values delivered by successive calls cannot overwrite each other")
+		ents := entries(c)
+		for _, ent := range ents {
+			e := solveEntry(c, "B2p-no-shared-delivery", ent)
+			if e == nil {
+				continue
+			}
+			start := locset{}
+			for _, par := range e.entry.Params {
+				if mayPoint(par.Type()) {
+					start.addAll(e.get(par))
+				}
+			}
+			var globals []string
+			reach := e.Closure(start)
+			for o := range reach {
+				if o.kind == oGlobal {
+					globals = append(globals, o.label)
+				}
+			}
+			// the caller's memory is closed for the solver (stores into it are not kept as contents): read the
+			// stores themselves
+			seenG := map[string]bool{}
+			for _, w := range e.writes {
+				st, ok := w.in.(*ssa.Store)
+				if !ok || !(w.loc.o.kind == oInput || reach[w.loc.o]) {
+					continue
+				}
+				for l := range e.get(st.Val) {
+					if l.o.kind == oGlobal && !seenG[l.o.label] {
+						seenG[l.o.label] = true
+						globals = append(globals, l.o.label+" stored at "+c.P.InstrPos(st))
+					}
+				}
+			}
+			sort.Strings(globals)
+			if len(globals) > 0 {
+				c.R.Bad("B2p-no-shared-delivery", ent.key, c.P.Pos(e.entry.Pos()), "what "+ent.key+" stores behind its receiver / arguments may be package-level or pooled memory ("+strings.Join(globals, ", ")+"): a later call can overwrite what this call delivered")
+			} else {
+				c.R.OK("B2p-no-shared-delivery", ent.key, c.P.Pos(e.entry.Pos()), "nothing package-level or pooled is left behind the receiver / arguments")
+			}
+		}
+		c.R.Floor("B2p-no-shared-delivery", len(ents), floor)
+	}
+}
